@@ -41,6 +41,19 @@ func ReadBasicTypeLE[T BasicType](buf *bytes.Buffer) (T, error) {
 	return v, err
 }
 
+// ErrPrefixOverflow is returned when a text or list is longer than its wire
+// length prefix can represent.
+var ErrPrefixOverflow = errors.New("length does not fit its prefix type")
+
+// checkPrefix refuses a length that the unsigned prefix type T cannot hold;
+// writing T(n) unchecked would wrap around and desynchronise the stream.
+func checkPrefix[T constraints.Unsigned](n int) error {
+	if uint64(n) > uint64(^T(0)) {
+		return ErrPrefixOverflow
+	}
+	return nil
+}
+
 // boundedCap limits the capacity reserved for a list whose element count was
 // read from the wire to the number of bytes actually left in the buffer, so a
 // hostile count cannot make the decoder allocate memory for absent data.
@@ -55,6 +68,9 @@ func boundedCap(count int, buf *bytes.Buffer) int {
 }
 
 func WriteBasicTypeList[T constraints.Unsigned, K BasicType](buf *bytes.Buffer, values []K) error {
+	if err := checkPrefix[T](len(values)); err != nil {
+		return err
+	}
 	if err := binary.Write(buf, binary.BigEndian, T(len(values))); err != nil {
 		return err
 	}
@@ -67,6 +83,9 @@ func WriteBasicTypeList[T constraints.Unsigned, K BasicType](buf *bytes.Buffer, 
 }
 
 func WriteBasicTypeListLE[T constraints.Unsigned, K BasicType](buf *bytes.Buffer, values []K) error {
+	if err := checkPrefix[T](len(values)); err != nil {
+		return err
+	}
 	if err := binary.Write(buf, binary.LittleEndian, T(len(values))); err != nil {
 		return err
 	}
@@ -122,6 +141,9 @@ func ReadBasicTypeListLE[T constraints.Unsigned, K BasicType](buf *bytes.Buffer)
 // ----------------------------
 
 func WriteString[T constraints.Unsigned](buf *bytes.Buffer, s string) error {
+	if err := checkPrefix[T](len(s)); err != nil {
+		return err
+	}
 	if err := binary.Write(buf, binary.BigEndian, T(len(s))); err != nil {
 		return err
 	}
@@ -132,6 +154,9 @@ func WriteString[T constraints.Unsigned](buf *bytes.Buffer, s string) error {
 }
 
 func WriteStringLE[T constraints.Unsigned](buf *bytes.Buffer, s string) error {
+	if err := checkPrefix[T](len(s)); err != nil {
+		return err
+	}
 	if err := binary.Write(buf, binary.LittleEndian, T(len(s))); err != nil {
 		return err
 	}
@@ -212,6 +237,9 @@ func WriteFixedStringList[T constraints.Unsigned](buf *bytes.Buffer, values []st
 }
 
 func WriteFixedStringListWithPadding[T constraints.Unsigned](buf *bytes.Buffer, values []string, fixedLen int, padChar rune, padLeft bool) error {
+	if err := checkPrefix[T](len(values)); err != nil {
+		return err
+	}
 	if err := binary.Write(buf, binary.BigEndian, T(len(values))); err != nil {
 		return err
 	}
@@ -230,6 +258,9 @@ func WriteFixedStringListLE[T constraints.Unsigned](buf *bytes.Buffer, values []
 	return WriteFixedStringListWithPaddingLE[T](buf, values, fixedLen, ' ', false)
 }
 func WriteFixedStringListWithPaddingLE[T constraints.Unsigned](buf *bytes.Buffer, values []string, fixedLen int, padChar rune, padLeft bool) error {
+	if err := checkPrefix[T](len(values)); err != nil {
+		return err
+	}
 	if err := binary.Write(buf, binary.LittleEndian, T(len(values))); err != nil {
 		return err
 	}
@@ -317,12 +348,18 @@ func ReadFixedStringListTrimPaddingLE[T constraints.Unsigned](buf *bytes.Buffer,
 // K: type used for each string's length prefix (e.g., uint8, uint16, uint32)
 func WriteStringListLE[T constraints.Unsigned, K constraints.Unsigned](buf *bytes.Buffer, values []string) error {
 	// Write the list length prefix
+	if err := checkPrefix[T](len(values)); err != nil {
+		return err
+	}
 	if err := binary.Write(buf, binary.LittleEndian, T(len(values))); err != nil {
 		return err
 	}
 
 	// Write each string with its own length prefix
 	for _, s := range values {
+		if err := checkPrefix[K](len(s)); err != nil {
+			return err
+		}
 		if err := binary.Write(buf, binary.LittleEndian, K(len(s))); err != nil {
 			return err
 		}
@@ -333,12 +370,18 @@ func WriteStringListLE[T constraints.Unsigned, K constraints.Unsigned](buf *byte
 
 func WriteStringList[T constraints.Unsigned, K constraints.Unsigned](buf *bytes.Buffer, values []string) error {
 	// Write the list length prefix
+	if err := checkPrefix[T](len(values)); err != nil {
+		return err
+	}
 	if err := binary.Write(buf, binary.BigEndian, T(len(values))); err != nil {
 		return err
 	}
 
 	// Write each string with its own length prefix
 	for _, s := range values {
+		if err := checkPrefix[K](len(s)); err != nil {
+			return err
+		}
 		if err := binary.Write(buf, binary.BigEndian, K(len(s))); err != nil {
 			return err
 		}
@@ -411,6 +454,9 @@ func ReadStringList[T constraints.Unsigned, K constraints.Unsigned](buf *bytes.B
 // Object
 func WriteObjectList[T constraints.Unsigned, K BinaryCodec](buf *bytes.Buffer, values []K) error {
 	// Write the list length prefix
+	if err := checkPrefix[T](len(values)); err != nil {
+		return err
+	}
 	if err := binary.Write(buf, binary.BigEndian, T(len(values))); err != nil {
 		return err
 	}
@@ -445,6 +491,9 @@ func ReadObjectList[T constraints.Unsigned, K BinaryCodec](buf *bytes.Buffer, ne
 // Object
 func WriteObjectListLE[T constraints.Unsigned, K BinaryCodec](buf *bytes.Buffer, values []K) error {
 	// Write the list length prefix
+	if err := checkPrefix[T](len(values)); err != nil {
+		return err
+	}
 	if err := binary.Write(buf, binary.LittleEndian, T(len(values))); err != nil {
 		return err
 	}
